@@ -118,6 +118,9 @@ func raceUfs(ctx *core.Ctx, n int, logging bool, rep int) core.Result {
 	ufs.Dotu = rep%2 == 0
 	ufs.Root = root
 	ufs.Id = "ufs"
+	if rep%3 == 1 {
+		ufs.Msize = 4096 // below what the clients ask for: Connect adopts the server's answer while its receive loop runs
+	}
 	if logging {
 		ufs.Debuglevel = go9p.DbgLogFcalls | go9p.DbgLogPackets
 		ufs.Log = go9p.NewLogger(64)
